@@ -15,6 +15,9 @@ Proof. unfold bytes_eqb. destruct (list_eq_dec Nat.eq_dec a b); split; congruenc
 
 Lemma const_ptr_ty t : is_const_ptr_ty [P "*"; I "const"; I t] = true.
 Proof. reflexivity. Qed.
+Lemma const_ptr_prim_ty t :
+  is_const_ptr_ty [P "*"; I "const"; P "::"; I "core"; P "::"; I "primitive"; P "::"; I t] = true.
+Proof. reflexivity. Qed.
 
 Section Bytes.
   Variable I : interp.
@@ -35,7 +38,7 @@ Section Bytes.
     eval I en (raw_bytes x) s = (RVal (VRefTmp (VBytes l)), s).
   Proof.
     intros Hx Hsz Hl Hlen. unfold raw_bytes.
-    cbn [eval is_from_raw_parts]. rewrite !const_ptr_ty. rewrite Hx. rewrite Hsz.
+    cbn [eval is_from_raw_parts]. rewrite const_ptr_prim_ty, const_ptr_ty. rewrite Hx. rewrite Hsz.
     unfold from_raw_parts. rewrite Hl. rewrite <- Hlen. rewrite Nat.leb_refl, firstn_all. reflexivity.
   Qed.
 End Bytes.
